@@ -488,6 +488,65 @@ def generated_seeds():
                                      if prog.get('type') == 'reverse'
                                      else None),
                       'origin': 'generator'})
+    # every publish form at once: task level (per state) and inside each
+    # on-clause (branch / global / atomic)
+    seeds.append({'id': 'gen/publish_everywhere', 'kind': 'wf', 'text': '''\
+version: '2.0'
+wf:
+  input:
+  - v: 0
+  tasks:
+    a:
+      action: std.noop
+      publish:
+        p: 1
+      publish-on-error:
+        e: 2
+      publish-on-skip:
+        s: 3
+      on-success:
+        publish:
+          branch:
+            ws: <% $.v %>
+          global:
+            gs: 1
+        next:
+        - b
+      on-error:
+        publish:
+          branch:
+            we: 1
+          atomic:
+            ae: 1
+        next:
+        - c
+      on-complete:
+        publish:
+          branch:
+            wc: 1
+          global:
+            gc: 1
+        next:
+        - d
+      on-skip:
+        publish:
+          branch:
+            wk: 1
+        next:
+        - b
+    b:
+      action: std.noop
+      publish-on-error:
+        e: 2
+      on-complete:
+        publish:
+          branch:
+            wc: 2
+    c:
+      action: std.noop
+    d:
+      action: std.noop
+''', 'expect': 'accept', 'tasks': 4, 'origin': 'generator'})
     # a multi-workflow file and a workbook assembled from generated programs
     multi = {'version': '2.0'}
     for n in ('seq2', 'guard_var', 'diamond'):
